@@ -136,6 +136,10 @@ def enumerate_cases(tier):
         fam, vals = PAIR_OPTIONS[opt]
         for share in (("all",) if tier == "quick" else ("all", "partial")):
             yield {"t": "pair", "option": opt, "family": fam, "values": vals, "share": share}
+    # two configurations that differ in nothing but their family name and their source directory (common and private file names)
+    for share in ("dirs", "dirs-rev"):
+        for fam, fmt in (("vector", "glyf_colr_1"), ("otsvg", "picosvg")) if tier != "quick" or share == "dirs-rev" else (("vector", "glyf_colr_1"),):
+            yield {"t": "pair", "option": "color_format", "family": fam, "values": [fmt, fmt], "share": share}
 
 
 # --------------------------------------------------------------------------------------------- helpers
@@ -423,12 +427,25 @@ def judge_pair(case, v):
     files = dict(FILES)
     files["emoji_u1f603.svg"] = SRC_WIDE.replace("#806040", "#405060")
     srcs = ['["src/*.svg"]', '["src/*.svg"]'] if case["share"] == "all" else ['["src/emoji_u1f600.svg", "src/emoji_u1f601_200d_1f602.svg"]', '["src/emoji_u1f600.svg", "src/emoji_u1f603.svg"]']
+    order = ["c0.toml", "c1.toml"]
+    if case["share"].startswith("dirs"):
+        # two source directories with some file names in common (different artwork under the same name) and some not; the
+        # configurations are given in either order
+        f0 = {"src/" + k: x for k, x in FILES.items()}
+        f1 = {"src2/emoji_u1f600.svg": SRC_WIDE.replace("#806040", "#204080"), "src2/emoji_u1f603.svg": SRC_WIDE.replace("#806040", "#405060"),
+              "src2/emoji_u1f468_200d_1f469.svg": FILES["emoji_u1f600.svg"]}
+        files = dict(f0, **f1)
+        srcs = ['["src/*.svg"]', '["src2/*.svg"]']
+        if case["share"] == "dirs-rev":
+            order = ["c1.toml", "c0.toml"]
+    else:
+        files = {"src/" + k: x for k, x in files.items()}
     solo = []
     for i, c in enumerate(cfgs):
         with Workspace("c20solo") as ws:
             ws.shims()
             for name, text in files.items():
-                ws.write("src/" + name, text)
+                ws.write(name, text)
             write_toml(ws, "c%d.toml" % i, c, srcs[i])
             rc, out = ws.run(["nanoemoji", "--build_dir", "build", "c%d.toml" % i], ninja_j=4)
             solo.append((rc, sha(ws.path("build", c["output_file"])), tail(out, 4)))
@@ -438,10 +455,10 @@ def judge_pair(case, v):
     with Workspace("c20pair") as ws:
         ws.shims()
         for name, text in files.items():
-            ws.write("src/" + name, text)
+            ws.write(name, text)
         for i, c in enumerate(cfgs):
             write_toml(ws, "c%d.toml" % i, c, srcs[i])
-        rc, out = ws.run(["nanoemoji", "--build_dir", "build", "c0.toml", "c1.toml"], ninja_j=4)
+        rc, out = ws.run(["nanoemoji", "--build_dir", "build"] + order, ninja_j=4)
         if rc != 0:
             v.fail("pair-build-failed", "%s:%s" % (opt, case["share"]), {"out": "\n".join(l for l in out.splitlines() if "rror" in l or "FAILED" in l or l.startswith("ninja:"))[-1200:], "values": case["values"]})
             return
